@@ -246,6 +246,18 @@ func (b *Builder) MakeScript(a Action) ([]byte, []int, error) {
 	case "neo_set": // S = setGasPerBlock | setRegisterPrice
 		extra = append(extra, PCommittee)
 		call(nativehashes.NeoToken, a.S, a.N)
+	case "native_set": // S = "<Native>.<setter>", N = value; committee-signed
+		extra = append(extra, PCommittee)
+		h := map[string]util.Uint160{"Oracle": nativehashes.OracleContract, "Notary": nativehashes.Notary, "Management": nativehashes.ContractManagement}
+		dot := strings.IndexByte(a.S, '.')
+		if dot < 0 {
+			return nil, nil, fmt.Errorf("native_set: bad method %q", a.S)
+		}
+		ch, ok := h[a.S[:dot]]
+		if !ok {
+			return nil, nil, fmt.Errorf("native_set: unknown native %q", a.S)
+		}
+		call(ch, a.S[dot+1:], a.N)
 	case "designate": // A = role, B = bitmask of RoleKeys
 		extra = append(extra, PCommittee)
 		var pubs []any
